@@ -486,7 +486,12 @@ def sat_solve(F, cmd=None, sameas=None, verbose=0):
         if not some_solver_installed(solvers=[solver]):
             continue
         else:
-            return s_func(F, solver_cmd, verbose=verbose)
+            try:
+                return s_func(F, solver_cmd, verbose=verbose)
+            except (ValueError, IndexError) as err:
+                # the solver ran but its output could not be parsed
+                raise RuntimeError(
+                    "Error during SAT solver call: {}.\n".format(solver_cmd)) from err
 
     # no solver was available.
     if len(solver_cmds) == 1:
